@@ -1,5 +1,6 @@
 import Hls.Proto
 import Hls.Client.Process
+import Hls.Client.Pacing
 /-! Model driver for the `timeconv` (unit layer) and `timeconv_e2e` (end-to-end layer) correspondence streams (C10). -/
 open Hls.Proto Hls.Gen.TimeConv Hls.Client.TimeConv Hls.Client.Process
 
@@ -45,6 +46,14 @@ def parseSamples (s : String) : Option (List Sample) :=
 
 def unitOp (op : String) (ws : List String) : Option String :=
   match op with
+  | "pace" => do
+    let rate ← kvInt ws "rate"; let pts ← kvInt ws "pts"; let dts ← kvInt ws "dts"; let el ← kvInt ws "el"
+    if handleDataDiscard pts dts then some "pace=discard"
+    else if !(handleDataDtsDuration_defined pts dts rate) then some (panicStr .divByZero)
+    else match Hls.Client.Pacing.pace (handleDataDtsDuration pts dts rate) el with
+      | .now => some "pace=now"
+      | .sleep _ => some "pace=sleep"
+      | .tooBig => some "pace=toobig"
   | "conv" => do
     let ts ← kvInt ws "ts"; let base ← kvInt ws "base"; let v ← kvInt ws "v"; let rate ← kvInt ws "rate"
     let c : FMP4Conv := { leadingTimeScale := ts, leadingBaseTime := base }
